@@ -96,14 +96,16 @@ def sanitize_variable_name(
         return name
 
     # Compute recognisable basename
-    # (keeping only the characters that Python keeps as they are in identifiers)
+    # (keeping only the characters that Python keeps as they are in identifiers;
+    # it composes decomposed sequences, so that is done first)
     base_name = "".join(
         [
             char
-            if ("_" + char).isidentifier()
+            if re.match(r"\w", char)
+            and ("_" + char).isidentifier()
             and unicodedata.normalize("NFKC", char) == char
             else "_"
-            for char in name
+            for char in unicodedata.normalize("NFKC", name)
         ]
     )
     if not base_name.isidentifier() or keyword.iskeyword(base_name):
